@@ -84,14 +84,28 @@ def get_construct(src):
 
 def eval_case(case):
     """worker side: -> (request sexp or None, skip reason, impl response term or None)"""
+    if case['op'] in ('hexdump', 'hexundump'):
+        ls = case['linesize']
+        if case['op'] == 'hexdump':
+            return (sexp.to_sexp('request', ('RHexdump', case['data'], ls)), None, I.run_hexdump(case['data'], ls))
+        return (sexp.to_sexp('request', ('RHexundump', case['data'], ls)), None, I.run_hexundump(case['data'], ls))
+    if case['op'] == 'cops':
+        try:
+            req = ('RCops', [I.cop_term(o) for o in case['ops']])
+        except R.Unsupported as ex:
+            return (None, 'reify: ' + str(ex), None)
+        return (sexp.to_sexp('request', req), None, I.run_cops(case['ops']))
     if case['op'] == 'eval':
         try:
             e = eval(case['src'], namespace())
         except Exception as ex:
             return (None, 'expression raised %s' % type(ex).__name__, None)
         try:
-            req = ('REval', R.reify_operand(e), R.kw_term(case.get('kw', {})))
-            resp = I.run_eval(e, case.get('kw', {}))
+            kw = case.get('kw', {})
+            if case.get('containers'):
+                kw = {k: I.to_container(v) for k, v in kw.items()}
+            req = ('REval', R.reify_operand(e), R.kw_term(kw))
+            resp = I.run_eval(e, kw)
         except R.Unsupported as ex:
             return (None, 'reify: ' + str(ex), None)
         return (sexp.to_sexp('request', req), None, resp)
